@@ -3,6 +3,7 @@ package rules
 import (
 	"go/ast"
 	"go/token"
+	"go/types"
 	"sort"
 	"strings"
 
@@ -1080,6 +1081,29 @@ func c14Constructors(c *Ctx) {
 				return true
 			}
 		}
+		// `for _, fn := range cleanupFuncs { fn() }`, also through slices.Backward / All / Values
+		if id, isId := eng.Unparen(call.Fun).(*ast.Ident); isId {
+			if o := eng.ObjOf(f.Info(), id); o != nil {
+				for x := f.P.Parent(call); x != nil; x = f.P.Parent(x) {
+					rg, isRg := x.(*ast.RangeStmt)
+					if !isRg {
+						continue
+					}
+					list, elem := rg.X, rg.Value
+					if it, isIt := eng.IsCallTo(f.Info(), rg.X, "slices.Backward", "slices.All", "slices.Values"); isIt && len(it.Args) == 1 {
+						list = it.Args[0]
+						if eng.CalleeName(f.Info(), it) == "slices.Values" {
+							elem = rg.Key
+						}
+					}
+					if elem != nil && eng.ObjOf(f.Info(), elem) == o {
+						if lo := eng.ObjOf(f.Info(), list); lo != nil && eng.VarName(lo) == "cleanupFuncs" {
+							return true
+						}
+					}
+				}
+			}
+		}
 		return eng.NameIn(eng.CalleeName(f.Info(), call), "dht/provider.cleanup")
 	}
 	ctors := []struct {
@@ -1173,18 +1197,66 @@ func c14Constructors(c *Ctx) {
 			}
 		}
 	}
+	c14CleanupLists(c)
+	c14Registration(c)
 	// provider/dual.New closes providers built in EARLIER iterations: the release loop ranges over sweepingProviders[:i]
 	{
 		f := c.Fn("dht/provider/dual.New")
 		okLoop := false
+		info := f.Info()
+		isProviders := func(e ast.Expr) bool {
+			o := eng.ObjOf(info, e)
+			return o != nil && eng.VarName(o) == "sweepingProviders"
+		}
 		f.Walk(func(n ast.Node) bool {
-			if rg, ok := n.(*ast.RangeStmt); ok {
-				if se, isSl := eng.Unparen(eng.ArgExpr(f.Info(), rg.X)).(*ast.SliceExpr); isSl && se.Low == nil && se.High != nil {
-					if o := eng.ObjOf(f.Info(), se.X); o != nil && eng.VarName(o) == "sweepingProviders" {
-						okLoop = true
-					}
+			switch lp := n.(type) {
+			case *ast.RangeStmt:
+				// for _, p := range sweepingProviders[:i]
+				if se, isSl := eng.Unparen(eng.ArgExpr(info, lp.X)).(*ast.SliceExpr); isSl && se.Low == nil && se.High != nil && isProviders(se.X) {
+					okLoop = true
+					return true
 				}
 			}
+			// for j := range i / for j := 0; j < i; j++ with sweepingProviders[j] closed in the body
+			st, isStmt := n.(ast.Stmt)
+			if !isStmt {
+				return true
+			}
+			lo, hi, isLoop := tripCount(info, st)
+			if !isLoop || lo != nil || hi == nil || lenOf(f, hi) != nil {
+				return true
+			}
+			var counter eng.Object
+			var body *ast.BlockStmt
+			switch lp := st.(type) {
+			case *ast.RangeStmt:
+				if lp.Key != nil {
+					counter = eng.ObjOf(info, lp.Key)
+				}
+				body = lp.Body
+			case *ast.ForStmt:
+				if b, isB := eng.Unparen(lp.Cond).(*ast.BinaryExpr); isB {
+					counter = eng.ObjOf(info, b.X)
+				}
+				body = lp.Body
+			}
+			if counter == nil {
+				return true
+			}
+			ast.Inspect(body, func(x ast.Node) bool {
+				call, isCall := x.(*ast.CallExpr)
+				if !isCall || eng.CalleeName(info, call) != "(*dht/provider.SweepingProvider).Close" {
+					return true
+				}
+				sel, _ := eng.Unparen(call.Fun).(*ast.SelectorExpr)
+				if sel == nil {
+					return true
+				}
+				if ix, isIx := eng.Unparen(resolveLocal(f, sel.X)).(*ast.IndexExpr); isIx && isProviders(ix.X) && eng.ObjOf(info, ix.Index) == counter {
+					okLoop = true
+				}
+				return true
+			})
 			return true
 		})
 		c.Check(K(f.Name, "closes earlier providers"), f.Pos(), okLoop, "a failing inner constructor closes the providers built before it", "no loop over sweepingProviders[:i]")
@@ -1350,4 +1422,187 @@ func inferGoEntry(c *Ctx, g eng.GoSite) (goEntry, bool) {
 		}
 	}
 	return goEntry{}, false
+}
+
+// c14CleanupLists: wherever a list of clean-up functions is run, the loop visits every element
+// of the list and calls each non-nil one (an off-by-one leaves the first registered resource —
+// a datastore, the connectivity checker's probe goroutine — open after Close returned).
+func c14CleanupLists(c *Ctx) {
+	p := c.P
+	n := 0
+	for _, fn := range []string{"dht/provider.cleanup", "(*dht/provider/dual.SweepingProvider).Close", "dht/provider/dual.New"} {
+		f := c.Fn(fn)
+		info := f.Info()
+		cf := f.CFG()
+		f.Walk(func(x ast.Node) bool {
+			call, ok := x.(*ast.CallExpr)
+			if !ok || len(call.Args) != 0 {
+				return true
+			}
+			tv, has := info.Types[call.Fun]
+			if !has {
+				return true
+			}
+			sig, isSig := tv.Type.Underlying().(*types.Signature)
+			if !isSig || sig.Params().Len() != 0 || sig.Results().Len() != 1 || sig.Results().At(0).Type().String() != "error" {
+				return true
+			}
+			switch fe := eng.Unparen(call.Fun).(type) {
+			case *ast.IndexExpr:
+			case *ast.Ident:
+				if _, isVar := info.Uses[fe].(*types.Var); !isVar {
+					return true
+				}
+			default:
+				return true
+			}
+			// nearest enclosing loop
+			var loop ast.Stmt
+			for y := p.Parent(call); y != nil; y = p.Parent(y) {
+				if _, isLit := y.(*ast.FuncLit); isLit {
+					break
+				}
+				if st, isLoop := y.(*ast.ForStmt); isLoop {
+					loop = st
+					break
+				}
+				if st, isLoop := y.(*ast.RangeStmt); isLoop {
+					loop = st
+					break
+				}
+			}
+			if loop == nil {
+				return true
+			}
+			n++
+			list, isElem, body := fullTraversal(f, loop)
+			okList := false
+			if list != nil {
+				if ltv, has := info.Types[list]; has {
+					if sl, isSl := ltv.Type.Underlying().(*types.Slice); isSl {
+						_, okList = sl.Elem().Underlying().(*types.Signature)
+					}
+				}
+			}
+			if !c.Check(K(f.Name, "clean-up loop visits the whole list"), loop.Pos(), okList && isElem(call.Fun), "a loop that runs clean-up functions visits every element of their list, first to last or last to first", "the loop around "+short(call)+" is not a full traversal of the list it calls elements of") {
+				return true
+			}
+			leaves := false
+			ast.Inspect(body, func(y ast.Node) bool {
+				switch b := y.(type) {
+				case *ast.FuncLit:
+					return false
+				case *ast.ReturnStmt:
+					leaves = true
+				case *ast.BranchStmt:
+					if b.Tok == token.GOTO || b.Label != nil || (b.Tok == token.BREAK && !insideInnerBreakable(p, b, loop)) {
+						leaves = true
+					}
+				}
+				return true
+			})
+			// every turn calls the element unless it is nil
+			var outs []eng.Loc
+			for _, b := range cf.G.Blocks {
+				if !b.Live {
+					continue
+				}
+				for i, nd := range b.Nodes {
+					if !eng.Contains(body, nd) {
+						outs = append(outs, eng.Loc{B: b, I: i})
+					}
+				}
+			}
+			outs = append(outs, cf.Exits(false)...)
+			first := cf.FirstLocIn(body)
+			okCall, w := passOrFact(cf, first, eng.LocSet(outs...), cf.LocsOf(call), func(ft eng.Fact) bool {
+				e, isNilF, isN := ft.NilFact()
+				return isN && isNilF && isElem(e)
+			})
+			for _, l := range cf.LocsOf(call) {
+				if l == first {
+					okCall = true // the call is the first thing a turn does
+				}
+			}
+			c.CheckW(K(f.Name, "clean-up loop calls every element"), call.Pos(), okCall && !leaves, "every non-nil clean-up function of the list is called, whatever the others returned", "a turn of the loop can end without calling its element, or the loop can be left early", cf.DescribePath(w))
+			return true
+		})
+	}
+	c.Check("clean-up loops", 0, n >= 3, "the clean-up loops of provider and provider/dual were found", "found "+itoa(n))
+}
+
+// c14Registration: a resource whose release goes through a clean-up list is registered in that
+// list as soon as it exists: from the successful acquisition no return is reachable before
+// `<list> = append(<list>, <resource>.Close)` (a registration moved further down leaves the
+// error returns in between without it, although they all run the list).
+func c14Registration(c *Ctx) {
+	type acq struct{ fn, callee, what string }
+	for _, a := range []acq{
+		{"dht/provider.New", "dht/provider/keystore.NewKeystore", "the keystore (worker goroutine)"},
+		{"dht/provider.New", "dht/provider/internal/connectivity.New", "the connectivity checker (probe goroutine)"},
+		{"dht/provider/dual.New", "dht/provider/keystore.NewKeystore", "the keystore (worker goroutine)"},
+	} {
+		f := c.Fn(a.fn)
+		info := f.Info()
+		cf := f.CFG()
+		calls := f.Calls(a.callee)
+		if !c.Check(K(f.Name, "acquires "+a.what+" once"), f.Pos(), len(calls) == 1, "the constructor creates "+a.what+" in one place", "found "+itoa(len(calls))) {
+			continue
+		}
+		ac := calls[0]
+		as, isAs := c.P.Parent(ac).(*ast.AssignStmt)
+		if !c.Check(K(f.Name, "holds "+a.what), ac.Pos(), isAs && len(as.Lhs) == 2, "the result is kept", "not assigned") {
+			continue
+		}
+		res := as.Lhs[0]
+		// registrations: assignments to a []func() error variable whose right side mentions <res>.Close
+		var regs []eng.Loc
+		f.Walk(func(x ast.Node) bool {
+			st, ok := x.(*ast.AssignStmt)
+			if !ok || len(st.Lhs) != 1 || len(st.Rhs) != 1 {
+				return true
+			}
+			tv, has := info.Types[st.Lhs[0]]
+			if !has {
+				return true
+			}
+			sl, isSl := tv.Type.Underlying().(*types.Slice)
+			if !isSl {
+				return true
+			}
+			if _, isFn := sl.Elem().Underlying().(*types.Signature); !isFn {
+				return true
+			}
+			mentions := false
+			ast.Inspect(st.Rhs[0], func(y ast.Node) bool {
+				if sel, isSel := y.(*ast.SelectorExpr); isSel && sel.Sel.Name == "Close" && eng.SameExpr(info, sel.X, res) {
+					if _, isCall := c.P.Parent(sel).(*ast.CallExpr); !isCall || c.P.Parent(sel).(*ast.CallExpr).Fun != ast.Expr(sel) {
+						mentions = true
+					}
+				}
+				return true
+			})
+			if mentions {
+				regs = append(regs, cf.LocsOf(st)...)
+			}
+			return true
+		})
+		start := cf.LocOf(ac)
+		for _, e := range factEdges(cf, func(ft eng.Fact) bool {
+			call, isNilE, ok := ft.ErrCall()
+			return ok && isNilE && call == ac
+		}) {
+			start = e.Start()
+		}
+		ok, w := cf.MustPass(start, eng.LocSet(cf.Exits(false)...), eng.LocSet(regs...))
+		var rets []eng.Loc
+		for _, r := range cf.Returns() {
+			rets = append(rets, cf.LocOf(r))
+		}
+		ok2, w2 := cf.MustPass(start, eng.LocSet(rets...), eng.LocSet(regs...))
+		if !ok2 {
+			w = w2
+		}
+		c.CheckW(K(f.Name, "registers "+a.what+" at once"), ac.Pos(), ok && ok2 && len(regs) >= 1, "once "+a.what+" exists, its Close is put on the clean-up list before anything else can make the constructor return", "a return is reachable after the successful acquisition and before its Close is registered", cf.DescribePath(w))
+	}
 }
